@@ -50,10 +50,11 @@ ALL = 'Layouts = {1,2,3}  Caps = {0,1,2}  PoolSets = {1,2,3,4,5}  Modes = {"stri
 
 SCOPE = {
     # mc: exhaustive closed-model scope; gen: scenario enumeration; replay: TLC scenarios replayed (None = all); explore: explorer scenarios
-    # (measured on the quiet 16-core machine: quick closed models 135k + 284k states in ~1 min, the whole quick tier ~2 min)
+    # (sized for ~2 min on a quiet 16-core machine; measured 3m42 while the shared machine's load rose from 35 to 170)
     "quick": dict(mc='NPods = 3  PodArchs = {1,3,4,6,9}  Layouts = {1,2}  Caps = {0,1,2}  PoolSets = {2,5}  Modes = {"strict", "fallback"}',
                   gen="NPods = 3  PodArchs = {1,2,3,4,5,6,7,8,9,10}  " + ALL, replay=1200, explore=1200,
-                  dmc="NClaims = 2  " + DALL, dgen="NClaims = 3  " + DALL.replace("Slots = {0, 1, 2}", "Slots = {0, 1}"), dreplay=None, dexplore=1200),   # every world x 5 pod-size variants (x both claim orders for 2 of them; thorough: for all)
+                  dmc="NClaims = 2  " + DALL.replace("Slots = {0, 1, 2}", "Slots = {0, 1}"),
+                  dgen="NClaims = 3  " + DALL.replace("Slots = {0, 1, 2}", "Slots = {0, 1}"), dreplay=None, dexplore=1200),   # every world x 5 pod-size variants (x both claim orders for 2 of them; thorough: for all)
     # (pool set 4 = a single pool is a sub-case of the others: left out of the exhaustive run, kept in the enumeration that is replayed;
     #  archetype 8 = two OR-terms relaxes into archetypes 3/4; measured: the full 59 400-scenario scope has ~3.0M states)
     "thorough": dict(mc='NPods = 3  PodArchs = {1,2,3,4,5,6,7,9,10}  Layouts = {1,2,3}  Caps = {0,1,2}  PoolSets = {1,2,3,5}  Modes = {"strict", "fallback"}',
